@@ -194,7 +194,7 @@ PLAN = {
     "C07": {"level": "exploration", "engines": LIN, "min_nontrivial": 500, "assumptions": CONC_ASSUMPTIONS},
     "C08": {"level": "exploration", "engines": REUSE, "min_nontrivial": 20, "assumptions": CONC_ASSUMPTIONS + ["one writer per key, so each key's writes form a sequence with recorded intervals; readers never modify"]},
     "C02": {"level": "fault_enumeration", "engines": _both(_crash("ack", 14, 240), _crash_chain, _crash_split), "min_nontrivial": 200, "assumptions": CRASH_ASSUMPTIONS},
-    "C03": {"level": "fault_enumeration", "engines": _both(_crash("all", 14, 240), _crash_split), "min_nontrivial": 200, "assumptions": CRASH_ASSUMPTIONS},
+    "C03": {"level": "fault_enumeration", "engines": _both(_crash("all", 14, 240), _crash_split, _crash_chain), "min_nontrivial": 200, "assumptions": CRASH_ASSUMPTIONS},
     "C04": {"level": "fault_enumeration", "engines": _both(_crash("idem", 4, 60, cuts_q=50, cuts_t=120), _sweep("bigretire", 2, 2, 24, 8)), "min_nontrivial": 50, "assumptions": CRASH_ASSUMPTIONS},
     "C01": {"level": "exploration", "engines": _model("all"), "min_nontrivial": 500, "assumptions": MODEL_ASSUMPTIONS},
     "C10": {"level": "exploration", "engines": _model("layout", quick_programs=36, thorough_programs=400), "min_nontrivial": 300,
